@@ -108,7 +108,10 @@ fn gen_header(rng: &mut Rng, allow_refused: bool) -> String {
     }
 }
 
-const JSON_BODIES: [&str; 9] = [
+const JSON_BODIES: [&str; 11] = [
+    // escapes, surrogate pairs, integer extremes, simple floats: "semantically unchanged" must hold
+    "{\"data\":{\"s\":\"caf\\u00e9 \\ud83d\\ude00 \\/ \\\"q\\\" \\\\ \\n\\t\",\"k\\u00e9y\":1},\"n\":[0,-1,9223372036854775807,-9223372036854775808,18446744073709551615,0.5,1.25,1e2,-0.0],\"b\":[true,false,null],\"e\":{},\"a\":[]}",
+    " \n{ \"data\" : { \"__schema\" : { \"types\" : [ ] , \"queryType\" : null } } }\n ",
     "null",
     "{\"data\":null,\"errors\":[{\"message\":\"introspection is disabled\"}]}",
     "[1,2,3]",
